@@ -748,8 +748,18 @@ def run(ctx: Ctx):
            "failure (fix 90132b5); a library caller still sees SystemExit", info=True)
     # ---------------------------------------------------------------- R11.5
     em = repo.func("MacroProcessor._expand_macros")
-    caps = [w for w in own_nodes(em) if isinstance(w, ast.While)]
-    ok = bool(caps) and all(classify(em, w)[0] == "cursor" and "max_iterations" in norm(w.test) for w in caps)
+    # the loops that re-expand the text: every loop whose body assigns the text it tests
+    def reexpands(w):
+        return isinstance(w, ast.While) or any(isinstance(a_, (ast.Assign, ast.AugAssign)) and any(
+            isinstance(t_, ast.Name) and t_.id == "content" for t_ in (a_.targets if isinstance(a_, ast.Assign) else [a_.target])) for a_ in ast.walk(w))
+    caps = [w for w in own_nodes(em) if isinstance(w, (ast.While, ast.For)) and reexpands(w)]
+
+    def capped(w):
+        if isinstance(w, ast.For):
+            # a pass counter drawn from range(..) ends by construction
+            return isinstance(w.iter, ast.Call) and norm(w.iter.func) == "range" and not any(isinstance(x, ast.Starred) for x in w.iter.args)
+        return classify(em, w)[0] == "cursor" and "max_iterations" in norm(w.test)
+    ok = bool(caps) and all(capped(w) for w in caps)
     ctx.ob("R11.5", f"{em.qual}: expansion passes are capped", em, ok, "iteration < max_iterations with iteration += 1 per pass" if ok else
            "macro expansion has no iteration cap: a self-referential macro loops for ever", key="R11.5|_expand_macros|cap")
     # ---------------------------------------------------------------- R11.6 the scheduling horizon is defined
